@@ -49,6 +49,7 @@ def main():
     ap.add_argument("--no-build", action="store_true")
     ap.add_argument("--no-shrink", action="store_true")
     ap.add_argument("--max-report", type=int, default=5)
+    ap.add_argument("--summary", action="store_true")
     a = ap.parse_args()
     prop = a.prop
     if prop not in PROFILES:
@@ -140,6 +141,12 @@ def main():
 
     # ---- report
     rc = 0
+    if a.summary:
+        c = Counter()
+        for plan, v in found:
+            c[(v["clause"], tuple(v.get("parked") or []), v.get("tag"), str(v.get("atoms") or v.get("sub") or ""), v["after_restart"], v["after_crash"])] += 1
+        for key, n in sorted(c.items(), key=lambda x: (x[0][0], -x[1])):
+            print(f"SUMMARY {n:6d} {key}")
     for kid, hits in sorted(known_hits.items()):
         kf = next(k for k in known if k["id"] == kid)
         print(f"KNOWN-FINDING: property={prop} {kf['id']}: {kf['summary']} ({len(hits)} occurrences in this run)")
